@@ -38,6 +38,9 @@ type harnessSpec struct {
 	Quick    tierSpec          `json:"quick"`
 	Thorough tierSpec          `json:"thorough"`
 	About    string            `json:"about"`
+	// NoNativeReplay: the harness reads model state (shadow page table, seal log, scheduler) that does not
+	// exist natively, so a native run cannot confirm or refute a counterexample.
+	NoNativeReplay bool `json:"no_native_replay"`
 }
 
 type propSpec struct {
@@ -144,6 +147,13 @@ func cmdRun(args []string) int {
 	var inconcl []string
 	var allViol []sx.Violation
 	knownSeen := map[string]int{}
+	noNative := map[string]bool{}
+	for _, h := range spec.Harnesses {
+		if h.NoNativeReplay {
+			noNative[h.Entry] = true
+			noNative[h.Name] = true
+		}
+	}
 	for _, h := range spec.Harnesses {
 		if *only != "" && h.Name != *only {
 			continue
@@ -239,7 +249,9 @@ func cmdRun(args []string) int {
 		vb, _ := json.MarshalIndent(map[string]interface{}{"property": spec.Property, "violation": v, "spec": *specPath, "tier": *tier}, "", " ")
 		os.WriteFile(path, vb, 0o644)
 		replayNote := "native replay: not attempted"
-		if !*noReplay {
+		if noNative[v.Harness] {
+			replayNote = "native replay: not applicable (the harness observes model state: shadow memory / seal log / schedule); counterexample = decision vector + model in the file above"
+		} else if !*noReplay {
 			ok, txt, err := nativeReplay(*specPath, *tier, v)
 			switch {
 			case err != nil:
